@@ -66,6 +66,10 @@ BASE_POOL = [
     ('text', 'ABC'), ('text', 'abd'), ('text', 'ab'), ('text', 'a'),
     ('text', 'Z'), ('text', 'é'), ('text', 'É'), ('text', '-1'),
     ('text', ' '), ('text', 'a b'),
+    # letters whose upper-case form is longer (the statement does not say
+    # whether "straße" equals "STRASSE": such pairs are judged by the order
+    # LAWS only)
+    ('text', 'straße'), ('text', 'STRASSE'), ('text', 'ﬁn'), ('text', 'FIN'),
     ('bool', True), ('bool', False), ('blank', None),
 ]
 MODES = ['typed', 'native', 'cells', 'literals']
@@ -87,6 +91,10 @@ def refval(kind, v, quirk=False):
 
 def ref_truth(op, a, b):
     return ref.CMP[op](ref.compare(refval(*a), refval(*b)))
+
+
+def expanding(t):
+    return len(t.upper()) != len(t) or len(t.lower()) != len(t)
 
 
 def cls(kind):
@@ -284,6 +292,15 @@ def offline(merged, ctx):
                         'observed': code, 'reference': want})
             samples += 1
         if code == want:
+            continue
+        if a[0] == 'text' and b[0] == 'text' and (expanding(a[1]) or
+                                                  expanding(b[1])):
+            # law-only pair: no verdict on the entry itself; remember which
+            # listed mechanism produces exactly this outcome, for the
+            # attribution of a broken law
+            for k, p in quirk_predict(mode, op, a, b).items():
+                if p == code:
+                    deviating[(mode, op, i, j)] = k
             continue
         preds = quirk_predict(mode, op, a, b)
         kf = None
